@@ -108,11 +108,12 @@ def cluster(draw, g, mode2D, names):
     step = draw(U(1.2, 3.0))
     th = draw(U(0, math.pi))
     objs = []
+    slots = draw(st.permutations(list(range(n))))   # creation order is not the spatial order
     for i in range(n):
         name = f"o{len(names)}"
         names.append(name)
         dims = [draw(U(0.4, 1.0)) * step for _ in range(3)]
-        k = i - (n - 1) / 2
+        k = slots[i] - (n - 1) / 2
         hx, hy = cx + k * step * math.cos(th), cy + k * step * math.sin(th)
         w = step * draw(U(0.3, 1.6))
 
@@ -617,7 +618,7 @@ def eval_pred(r, objs, params):
     return lhs < rhs if r["op"] == "<" else lhs > rhs
 
 
-def verify_scene(case, scene, sc, reqlines, out, specs, regions, viewers, nth_vis):
+def verify_scene(case, scene, sc, reqlines, out, specs, regions, viewers, nth_vis, soft_known=True):
     objs = {}
     for o in scene.objects:
         nm = getattr(o, "name", None)
@@ -642,6 +643,8 @@ def verify_scene(case, scene, sc, reqlines, out, specs, regions, viewers, nth_vi
         r = case["reqs"][i]
         if r["prob"] is None and not req.active:
             out.fail("user-req|hard-requirement-not-active", req=r)
+        if r["prob"] is not None and not soft_known:
+            continue  # selection flags describe the last scene of a batch only
         if req.active and not eval_pred(r, objs, scene.params):
             kind = "hard" if r["prob"] is None else "soft-selected"
             out.fail(f"user-req:{r['k']}|{kind}-predicate-false-in-accepted-scene", req=r,
@@ -710,7 +713,8 @@ def verify_scene(case, scene, sc, reqlines, out, specs, regions, viewers, nth_vi
         occ = [solids[n] for n in names if n != tname and bool(objs[n].occluding)]
         want_visible = vis in ("visible from", "visible", "requireVisible")
         cell = {"requireVisible": "requireVisible"}.get(vis) or \
-            (vis.replace(" ", "-") + (":first-visibility-requirement" if nth_vis[tname] == 0
+            (("not-visible-from" if vis.startswith("not") else "visible-from")
+             + (":first-visibility-requirement" if nth_vis[tname] == 0
                                       else ":later-visibility-requirement"))
         rotated = R is not None and np.abs(R - np.eye(3)).max() > 1e-12
         cell += ":viewer-rotated" if rotated else ":viewer-unrotated"
@@ -842,9 +846,10 @@ def judge(case):
                 out.fail("generate|" + core.exc_signature(e), source=src, error=repr(e))
                 break
             rejections += its - len(scenes)
-            for scene in scenes:
+            for k, scene in enumerate(scenes):
                 nscenes += 1
-                verify_scene(case, scene, sc, reqlines, out, specs, regions, viewers, nth_vis)
+                verify_scene(case, scene, sc, reqlines, out, specs, regions, viewers, nth_vis,
+                             soft_known=(k == len(scenes) - 1))
     finally:
         sample_checking.time = saved_time
         WAC.sortedRequirements = orig_sorted
@@ -883,5 +888,5 @@ def run_shard(shard, tier):
     col = core.Collector(PROP, shard["id"])
     core.hyp_search(cases(), judge, shard["n"], shard["seed"], col,
                     known_sigs=shard.get("known_sigs", ()), case_timeout=180,
-                    shrink_s=90 if tier == "quick" else 300)
+                    shrink_s=40 if tier == "quick" else 240)
     return col.result()
